@@ -104,8 +104,8 @@ Section Hop.
     stor (fst (handle_patch B pieces st r i cr cl body)) x = stor st x.
   Proof.
     unfold handle_patch. destruct (chunk_range_of cr cl) as [[a b]|e| |]; try reflexivity.
-    pose proof (frame_resume L st r i a (b - a) x) as F.
-    destruct (ub_resume B st r i a (b - a)) as [st1 [w|e| |]]; cbn [fst] in *; try exact F.
+    pose proof (frame_resume L st r i a (wrap64 (b - a)) x) as F.
+    destruct (ub_resume B st r i a (wrap64 (b - a))) as [st1 [w|e| |]]; cbn [fst] in *; try exact F.
     unfold copy_body. pose proof (copy_frame (pieces body) st1 w x) as F2.
     destruct (copy_pieces B st1 w (pieces body)) as [[st2 w2] [e|]]; cbn [fst] in *.
     - pose proof (frame_close L st2 w2 x) as F3.
@@ -174,7 +174,7 @@ Section Hop.
     intros Hgood Hb a. cbn [serve L_]. unfold handle_patch.
     pose proof (blen_nonneg (rcv i st)) as Ha. pose proof (blen_nonneg body) as Hn.
     rewrite chunk_range_of_ok by (subst a; lia).
-    destruct (law_resume_at L i st a (a + blen body - a) Hgood ltac:(subst a; lia)) as (st1 & w & E & Hr & Hs & _).
+    destruct (law_resume_at L i st a (wrap64 (a + blen body - a)) Hgood ltac:(subst a; lia)) as (st1 & w & E & Hr & Hs & _).
     rewrite E. specialize (Hs eq_refl). unfold copy_body.
     destruct (copy_syn (pieces body) _ _ _ _ Hs) as (st2 & w2 & pend2 & Ec & Hsyn2 & Hc).
     { rewrite pieces_concat, Hr. cbn. subst a. lia. }
@@ -198,7 +198,7 @@ Section Hop.
     intros Hgood Hne Ha Hoff Hb. cbn [serve L_]. unfold handle_patch.
     pose proof (blen_nonneg body) as Hn.
     rewrite chunk_range_of_ok by lia.
-    destruct (law_resume_at L i st a (a + blen body - a) Hgood ltac:(lia)) as (st1 & w & E & Hr & _ & Hu).
+    destruct (law_resume_at L i st a (wrap64 (a + blen body - a)) Hgood ltac:(lia)) as (st1 & w & E & Hr & _ & Hu).
     rewrite E. specialize (Hu Hoff). unfold copy_body.
     destruct (copy_uns (pieces body) _ _ _ _ _ _ Hu) as (st2 & w2 & r & Ec & Hr2 & Hcase).
     { rewrite pieces_concat. lia. }
@@ -228,10 +228,10 @@ Section Hop.
     intros Hgood Hb a c q. subst q. cbn [serve L_]. unfold handle_put.
     pose proof (blen_nonneg (rcv i st)) as Ha. pose proof (blen_nonneg body) as Hn.
     rewrite chunk_range_of_ok by (subst a; lia).
-    destruct (law_resume_at L i st a (a + blen body - a) Hgood ltac:(subst a; lia)) as (st1 & w & E & Hr & Hs & _).
+    destruct (law_resume_at L i st a (wrap64 (a + blen body - a)) Hgood ltac:(subst a; lia)) as (st1 & w & E & Hr & Hs & _).
     rewrite E. specialize (Hs eq_refl). unfold copy_body.
     assert (Hf1 : forall x, stor st1 x = stor st x).
-    { intros x. pose proof (frame_resume L st repo i a (a + blen body - a) x) as F. now rewrite E in F. }
+    { intros x. pose proof (frame_resume L st repo i a (wrap64 (a + blen body - a)) x) as F. now rewrite E in F. }
     destruct (copy_syn (pieces body) _ _ _ _ Hs) as (st2 & w2 & pend2 & Ec & Hsyn2 & Hc).
     { rewrite pieces_concat, Hr. cbn. subst a. lia. }
     rewrite Ec. rewrite pieces_concat, Hr in Hc. cbn [app] in Hc.
@@ -261,10 +261,10 @@ Section Hop.
     intros Hgood Hne Ha Hoff Hb Hd. cbn [serve L_]. unfold handle_put.
     pose proof (blen_nonneg body) as Hn.
     rewrite chunk_range_of_ok by lia.
-    destruct (law_resume_at L i st a (a + blen body - a) Hgood ltac:(lia)) as (st1 & w & E & Hr & _ & Hu).
+    destruct (law_resume_at L i st a (wrap64 (a + blen body - a)) Hgood ltac:(lia)) as (st1 & w & E & Hr & _ & Hu).
     rewrite E. specialize (Hu Hoff). unfold copy_body.
     assert (Hf1 : forall x, stor st1 x = stor st x).
-    { intros x. pose proof (frame_resume L st repo i a (a + blen body - a) x) as F. now rewrite E in F. }
+    { intros x. pose proof (frame_resume L st repo i a (wrap64 (a + blen body - a)) x) as F. now rewrite E in F. }
     destruct (copy_uns (pieces body) _ _ _ _ _ _ Hu) as (st2 & w2 & r & Ec & Hr2 & Hcase).
     { rewrite pieces_concat. lia. }
     rewrite Ec.
